@@ -15,7 +15,7 @@ From RT Require Import Model.StackTrace Model.StackProto Proofs.StackInvProofs.
 Import ListNotations.
 
 Theorem C04_linearizable : forall size_oracle attempts tabs scripts sched,
-  init_ok tabs -> Forall (fun s => forallb modelled s = true) scripts ->
+  init_ok tabs ->
   c04_ok (trace_of size_oracle attempts tabs scripts sched) = true.
 Proof. exact c04_all_traces. Qed.
 Print Assumptions C04_linearizable.
@@ -40,3 +40,21 @@ Example C04_ex :
   existsb (fun e => match e with ERet 1 ARead (RView txs _) => list_nat_eqb txs [100; 101; 7]%nat | _ => false end) tr = true /\
   existsb (fun e => match e with ERet 0 ACompactAll ROk => true | _ => false end) tr = true.
 Proof. vm_compute. auto. Qed.
+
+(* non-vacuity for the operations added to the model: a two-table addition that
+   commits, one that is refused (the second table claims the update index of
+   the first) and takes its first table back, a compaction of a range through a
+   stale handle, and a Clean *)
+Example C04_ex_multi :
+  let sched := map (fun _ => Step 0 None) (seq 0 40) ++ map (fun _ => Step 1 None) (seq 0 40) ++
+               map (fun _ => Step 0 None) (seq 0 40) in
+  let tr := trace_of (fun _ => 100) 50 c04_tabs
+              [[AOpen; AAddMulti 7 false; ARead; ACompact 1 3; ARead];
+               [AOpen; AAddMulti 8 true; AAddMulti 9 false; AClean; ARead]] sched in
+  c04_ok tr = true /\
+  existsb (fun e => match e with ERet 0 (AAddMulti 7 false) ROk => true | _ => false end) tr = true /\
+  existsb (fun e => match e with ERet 1 (AAddMulti 8 true) RLockFailure => true | _ => false end) tr = true /\
+  existsb (fun e => match e with ERet 1 ARead (RView txs _) => list_nat_eqb txs [100; 101; 7; 9]%nat | _ => false end) tr = true /\
+  existsb (fun e => match e with ERet 0 (ACompact 1 3) ROk => true | _ => false end) tr = true /\
+  existsb (fun e => match e with ERet 1 AClean ROk => true | _ => false end) tr = true.
+Proof. vm_compute. repeat split. Qed.
